@@ -136,7 +136,8 @@ def check_pair(ctx, su: Setup, a: int, b: int):
         if len(outs) == 1 and outs[0].kind == "return" and outs[0].value == Lin(b) and not outs[0].state.path:
             ctx.ok("C06.1", f"{tag}: children have resolution {b}", where, f"child form {e}")
         else:
-            st = core.VIOLATED if all(o.kind == "return" and isinstance(o.value, Lin) and o.value.is_const() for o in outs) else core.UNDECIDED
+            st = core.VIOLATED if all(o.kind == "return" and isinstance(o.value, Lin) and o.value.is_const() and not _opaque_path(o)
+                                      for o in outs) else core.UNDECIDED
             ctx.ob("C06.1", f"{tag}: children have resolution {[str(o.value) for o in outs]}", st, where, f"child form {e}")
         # parent of every child is the cell we started from
         pouts = interp.run_function(SER, "cell_to_parent", [e, Lin(a)])
